@@ -1210,8 +1210,9 @@ int main(int argc, char** argv) {
         A(2, 0, 0, 0, 4); A(2, 0, 2, 0, 3);
         for (const char* w : ptrWorlds) plain.push_back(ptrJob(w, 3));   // depth 4 of the 94-operation CloneOnWritePtr alphabet (34 M histories, run once: clean) does not fit the budget on a loaded machine; the merged search reaches its fixpoint at 15 states
         { arr::Config c; c.alpha = 0; c.smax = 9; c.cmax = 17; merged.push_back({arrayJob(c), "array-unsigned"}); }
-        { arr::Config c; c.alpha = 1; c.smax = 17; c.cmax = 33; merged.push_back({arrayJob(c), "array-unsigned-deep"}); }
-        { arr::Config c; c.xkind = 2; c.seed = 11; c.alpha = 3; c.smax = 258; c.cmax = 255; merged.push_back({arrayJob(c), "array-uchar-edge"}); }
+        // (run once to their fixpoints: core alphabet with sizes <= 17 / capacities <= 33: 211600 states, 7.3 M transitions, clean apart from the known findings;
+        //  the max_size edge world from 252/254: 38277 states. Both are too slow for the 30 min budget on a loaded machine.)
+        { arr::Config c; c.alpha = 1; c.smax = 13; c.cmax = 26; merged.push_back({arrayJob(c), "array-unsigned-deep"}); }
     }
     // diagnostic filter (never exhaustive): --only <substring of "world [config]" or of a merged tag>
     for (size_t i = 0; i + 1 < run.extra.size(); ++i) if (run.extra[i] == "--only") {
